@@ -18,6 +18,7 @@ class Verdict:
         self.tlc_runs = 0
         self.error = None
         self.skipped = 0
+        self.timeouts = []     # scenario ids whose validation did not finish (inconclusive)
 
 
 def _run(module, cfg, events, timeout, hwm=None, keep=False):
@@ -38,12 +39,13 @@ def _run(module, cfg, events, timeout, hwm=None, keep=False):
     return r
 
 
-def validate(items, module="Trace_Rapid", cfg="Trace_Rapid.cfg", timeout=600, bound=None, explain_dir=None, max_reject=4):
+def validate(items, module="Trace_Rapid", cfg="Trace_Rapid.cfg", timeout=240, bound=None, explain_dir=None, max_reject=4,
+             _projected=None):
     """items: list of (scenario dict, raw event list).  Returns a Verdict.
     All traces are checked in one TLC run; on rejection the offending trace is isolated,
     reported and the remaining traces are re-checked."""
     v = Verdict()
-    projected = [(sc, traceprep.project(evs, sc, bound=bound)) for sc, evs in items]
+    projected = _projected if _projected is not None else [(sc, traceprep.project(evs, sc, bound=bound)) for sc, evs in items]
     todo = list(projected)
     while todo:
         allev = []
@@ -55,18 +57,39 @@ def validate(items, module="Trace_Rapid", cfg="Trace_Rapid.cfg", timeout=600, bo
         v.tlc_runs += 1
         v.tlc_states += r.distinct
         v.tlc_generated += r.generated
-        if r.error and "TRACE-REJECTED" not in r.out:
+        if r.error and r.error.startswith("timeout"):
+            # the search did not finish: split the batch; a single trace that does not finish is inconclusive
+            if len(todo) == 1:
+                v.timeouts.append(todo[0][0].get("id"))
+                return v
+            half = len(todo) // 2
+            for part in (todo[:half], todo[half:]):
+                sub = validate([(sc, None) for sc, _ in part], module, cfg, max(60, timeout // 2), bound, explain_dir,
+                               max_reject, _projected=part)
+                v.accepted += sub.accepted
+                v.rejected += sub.rejected
+                v.timeouts += sub.timeouts
+                v.events += sub.events
+                v.tlc_states += sub.tlc_states
+                v.tlc_generated += sub.tlc_generated
+                v.tlc_runs += sub.tlc_runs
+                if sub.error:
+                    v.error = sub.error
+                    return v
+            return v
+        if r.error and "TRACE-REJECTED" not in r.out and '"hw"' not in r.out:
             v.error = "%s\n%s" % (r.error, r.out[-3000:])
             return v
-        m = re.search(r'"TRACE-REJECTED at line", (\d+), "of", (\d+)', r.out)
-        if not m:
-            if r.rc == 0:
-                v.accepted += [sc.get("id") for sc, _ in todo]
-                v.events += len(allev)
-                return v
+        hws = [int(x) for x in re.findall(r'"hw", (\d+)', r.out)]
+        hw = max(hws) if hws else 1
+        if hw >= len(allev) + 1:
+            v.accepted += [sc.get("id") for sc, _ in todo]
+            v.events += len(allev)
+            return v
+        if r.rc != 0 and "TRACE-REJECTED" not in r.out:
             v.error = "TLC rc=%s without verdict\n%s" % (r.rc, r.out[-3000:])
             return v
-        line = int(m.group(1))
+        line = hw
         # which trace contains that line?
         idx = max(i for i, s in enumerate(starts) if s <= line)
         sc, evs = todo[idx]
